@@ -81,14 +81,14 @@ func checkC10(c *Ctx, r *Report) {
 	}
 	effectsPositiveControls(c, r)
 	r.Floor("positive_controls", 5)
-	r.Floor("api_entry_points_amd64", 25)
-	r.Floor("param_obligations_amd64", 60)
+	r.Floor("api_entry_points_amd64", 15)
+	r.Floor("param_obligations_amd64", 30)
 	r.Floor("append_contracts_amd64", 1)
 	r.Floor("append_contracts_arm64", 1)
-	r.Floor("append_outcomes_amd64", 4)
-	r.Floor("append_outcomes_arm64", 4)
-	r.Floor("overlap_routines_amd64", 6)
-	r.Floor("overlap_routines_arm64", 10)
+	r.Floor("append_outcomes_amd64", 2)
+	r.Floor("append_outcomes_arm64", 2)
+	r.Floor("overlap_routines_amd64", 3)
+	r.Floor("overlap_routines_arm64", 5)
 }
 
 func c10Append(r *Report, p *Prog, arch string) {
